@@ -390,6 +390,15 @@ NoResultBeforeStop ==
 \* covered by NoCtrlStuck; Rejected starts exist in the explored space (vacuity guard)
 SomeRejected == \E g \in SIds : spc[g] = "rejected"
 
+\* ... and ONLY while a search is running: a start request is rejected only when the search that holds the running semaphore has
+\* not yet delivered its result (the user interface that has read "bestmove" may send the next "go" at once - the search
+\* that is still cleaning up is not "running" any more), or when another start request is already waiting for that moment
+RejectOnlyUnanswered ==
+    [][\A g \in SIds :
+          (spc[g] = "try" /\ spc'[g] = "rejected") =>
+              \/ runHolder \in SIds /\ ~\E i \in 1..Len(results) : results[i] = runHolder
+              \/ runWaiter # 0]_vars
+
 \* liveness: every controller call returns (checked under weak fairness of every process)
 Fairness == WF_vars(Next)
 CallsReturn == []<>(cpc = <<"idle">>)
